@@ -259,6 +259,10 @@ def run(tier, seed, replay=None):
     tmp = tempfile.mkdtemp(prefix="pv_c03_")
     try:
         pairs = [(9, 19), (1, 2), (3, 4), (5, 12), (2, 30)] + [(lo, lo + rng.randint(1, 9)) for lo in (rng.randint(1, 12) for _ in range(3 if tier == "quick" else 12))]
+        # pairs on the other side of the DEFAULTS (9 / 19): a low threshold at or above the default medium one, a medium threshold at or below the default
+        # low one, one threshold equal to its default and the other not ("every pair of low/medium thresholds")
+        pairs += [(19, 20), (20, 21), (25, 40), (30, 31), (18, 19), (9, 50), (19, 45), (1, 9), (4, 8)]
+        pairs += [(lo, lo + rng.randint(1, 30)) for lo in (rng.randint(19, 45) for _ in range(2 if tier == "quick" else 10))]
         for pi, (lo, med) in enumerate(pairs):
             root = os.path.join(tmp, "r%d" % pi)
             proj = os.path.join(root, "proj")
@@ -267,9 +271,23 @@ def run(tier, seed, replay=None):
             with open(os.path.join(proj, "m.py"), "w") as f:
                 for k in ks:
                     f.write(func_with_complexity("cx_%d" % k, k) + "\n\n")
-            with open(os.path.join(root, "cfg.toml"), "w") as f:
-                f.write("[complexity]\nlow_threshold = %d\nmedium_threshold = %d\n" % (lo, med))
-            rc, data, err = C.pyscn_json(["proj"], root, extra=["--select", "complexity", "--min-complexity", "1", "--config", os.path.join(root, "cfg.toml")])
+            # the file is named with --config, or DISCOVERED from the target (.pyscn.toml / pyproject.toml in the project)
+            how = ("explicit", "pyscn_toml", "pyproject")[pi % 3]
+            hist["threshold_file_" + how] = hist.get("threshold_file_" + how, 0) + 1
+            body = "low_threshold = %d\nmedium_threshold = %d\nmax_complexity = %d\n" % (lo, med, med + 60)
+            if how == "explicit":
+                with open(os.path.join(root, "cfg.toml"), "w") as f:
+                    f.write("[complexity]\n" + body)
+                extra_cfg = ["--config", os.path.join(root, "cfg.toml")]
+            elif how == "pyscn_toml":
+                with open(os.path.join(proj, ".pyscn.toml"), "w") as f:
+                    f.write("[complexity]\n" + body)
+                extra_cfg = []
+            else:
+                with open(os.path.join(proj, "pyproject.toml"), "w") as f:
+                    f.write("[project]\nname = \"x\"\n\n[tool.pyscn.complexity]\n" + body)
+                extra_cfg = []
+            rc, data, err = C.pyscn_json(["proj"], root, extra=["--select", "complexity", "--min-complexity", "1"] + extra_cfg)
             if data is None:
                 res.violation("analyze produced no report with thresholds (%d,%d): %s" % (lo, med, err[-300:]), {"low": lo, "medium": med})
                 continue
